@@ -102,7 +102,7 @@ pub fn full_menu() -> Vec<Expr> {
             m.push(t(Test::Perm(k, b)));
         }
     }
-    for p in ["file.txt", "FILE.TXT", "*.txt", "f?le*", "[a-f]*", "dir/*", "отчёт*", "ΑΘΗΝΑ", "*.[0-9]", "Ünï?"] {
+    for p in ["file.txt", "FILE.TXT", "*.txt", "f?le*", "[a-f]*", "dir/*", "отчёт*", "ΑΘΗΝΑ", "*.[0-9]", "Ünï?", "\\[draft", "\\*", "\\**", "a**b", "a*b", "[abc", "x\\?", "f"] {
         m.push(t(Test::Name(p.into())));
         m.push(t(Test::IName(p.into())));
         m.push(t(Test::Path(p.into())));
@@ -142,6 +142,14 @@ pub fn full_menu() -> Vec<Expr> {
         m.push(a(Action::Printf(vec![lit("a"), Fmt::Special(s), lit("b"), NL])));
     }
     m.push(a(Action::Printf(vec![Fmt::Field(Field::Name)])));
+    m.push(a(Action::Printf(vec![Fmt::Field(Field::Name), NL, NL])));
+    m.push(a(Action::Printf(vec![Fmt::Field(Field::Name), NL, NL, NL])));
+    m.push(a(Action::Printf(vec![Fmt::Field(Field::Name), lit("\\n")])));
+    m.push(a(Action::Printf(vec![Fmt::Field(Field::Name), lit("\n")])));
+    m.push(a(Action::Printf(vec![Fmt::Field(Field::Name), Fmt::Special(Special::Ascii(0o12))])));
+    m.push(a(Action::Printf(vec![Fmt::Field(Field::Name), Fmt::Special(Special::Ascii(0o14))])));
+    m.push(a(Action::Printf(vec![Fmt::Field(Field::Name), Fmt::Special(Special::Form)])));
+    m.push(a(Action::FPrintf("f".into(), vec![Fmt::Field(Field::Name), NL, NL])));
     m.push(a(Action::Printf(vec![lit("x")])));
     m.push(a(Action::Printf(vec![lit("100%"), Fmt::Field(Field::Percent), lit(" ~a ~~ "), NL])));
     m.push(a(Action::Printf(vec![Fmt::Field(Field::Name), lit(" "), Fmt::Field(Field::SizeBytes), lit(" "), Fmt::Field(Field::UserId), NL])));
